@@ -2,7 +2,7 @@
    Theorems about the scope machinery and the loop-range function of the visitor model; the
    model is tied to /repo by the correspondence run of ./check C08. *)
 From Coq Require Import ZArith List Bool String.
-From Verif Require Import BGate PyVal Ast State Unroll ResolveProofs ScopeProofs StackProofs DefProofs.
+From Verif Require Import BGate PyVal Ast State Unroll ResolveProofs ScopeProofs ControlProofs StackProofs DefProofs.
 Import ListNotations.
 Open Scope Z_scope.
 
@@ -106,3 +106,87 @@ Proof.
 Qed.
 Print Assumptions C08_definitions_are_never_altered.
 
+
+(* ---- what the control-flow statements visit and emit (Lang/ControlProofs.v) ---- *)
+
+(* a for-loop runs its body once per element of the range or set, in order: each iteration opens a fresh block scope,
+   declares the loop variable, stores the element converted to (and range-checked against) the declared type, visits
+   the body, and drops the scope again; the loop emits the concatenation of what the iterations emitted *)
+Theorem C08_for_loop_runs_body_once_per_value visit_rec call_rec t var set body decl out s s' :
+  visit_for false visit_rec call_rec t var set body decl s = Ok (out, s') ->
+  exists init vals s0 outs,
+    for_values call_rec set s = Ok ((init, vals), s0) /\
+    iterations visit_rec t var init body decl vals s0 outs s' /\
+    List.length outs = List.length vals /\
+    out = List.concat outs.
+Proof.
+  intros H. destruct (for_loop_runs_body_once_per_value false visit_rec call_rec t var set body decl out s s' eq_refl H)
+    as (init & vals & s0 & outs & A & B & C).
+  exists init, vals, s0, outs. repeat split; auto. eapply iterations_length; eauto.
+Qed.
+Print Assumptions C08_for_loop_runs_body_once_per_value.
+
+(* validate() takes the check-only shortcut: only the first iteration is visited and nothing is emitted *)
+Theorem C08_for_loop_validate_visits_first_iteration visit_rec call_rec t var set body decl out s s' :
+  visit_for true visit_rec call_rec t var set body decl s = Ok (out, s') ->
+  exists init vals s0,
+    for_values call_rec set s = Ok ((init, vals), s0) /\ out = [] /\
+    match vals with
+    | [] => s' = s0
+    | v :: _ => exists o, iteration visit_rec t var init body decl v s0 o s'
+    end.
+Proof. exact (for_loop_check_only_visits_first_iteration true visit_rec call_rec t var set body decl out s s' eq_refl). Qed.
+Print Assumptions C08_for_loop_validate_visits_first_iteration.
+
+(* a compile-time if/else executes exactly the arm its condition selects *)
+Theorem C08_compile_time_branch_visits_selected_arm check_only visit_rec call_rec cond t e out s s' :
+  let s0 := level_push (push_scope (push_ctx CBlock s)) in
+  creg_in_expr s0 cond s0 = Ok (false, s0) ->
+  visit_branch check_only visit_rec call_rec cond t e s = Ok (out, s') ->
+  exists v ne s1 b s2,
+    eval0 call_rec cond false None s0 = Ok (v, s1) /\
+    py_binop OpNe v (VInt 0) = Ok ne /\
+    visit_block visit_rec (if truthy ne then t else e) s1 = Ok (b, s2) /\
+    s' = pop_ctx (pop_scope (level_pop s2)) /\
+    out = (if check_only then [] else b).
+Proof. exact (compile_time_branch_visits_selected_arm check_only visit_rec call_rec cond t e out s s'). Qed.
+Print Assumptions C08_compile_time_branch_visits_selected_arm.
+
+(* a measurement-conditioned if stays: one conditional on the same register (bit), both arms visited in order *)
+Theorem C08_measured_branch_keeps_both_arms visit_rec call_rec cond t e out s s' :
+  let s0 := level_push (push_scope (push_ctx CBlock s)) in
+  creg_in_expr s0 cond s0 = Ok (true, s0) ->
+  visit_branch false visit_rec call_rec cond t e s = Ok (out, s') ->
+  exists rid rname rhs s1 lhs lit tb s2 eb s3,
+    branch_params call_rec cond s0 = Ok ((rid, rname, rhs), s1) /\
+    lit = ELit rhs /\
+    (lhs = EId rname \/ exists i, lhs = EIndexE (EId rname) (IdxList [IExpr (ELit (VInt i))])) /\
+    visit_block visit_rec t s1 = Ok (tb, s2) /\
+    visit_block visit_rec e s2 = Ok (eb, s3) /\
+    s' = pop_ctx (pop_scope (level_pop s3)) /\
+    out = [SIf (EBin "==" lhs lit) tb eb].
+Proof. exact (measured_branch_keeps_both_arms false visit_rec call_rec cond t e out s s' eq_refl). Qed.
+Print Assumptions C08_measured_branch_keeps_both_arms.
+
+(* a switch executes exactly the body of the first case holding a value equal to the target, else the default,
+   else nothing; a case is hit only through a value that compares equal to the target *)
+Theorem C08_switch_visits_exactly_the_selected_case check_only visit_rec call_rec target cases default out s s' :
+  visit_switch check_only visit_rec call_rec target cases default s = Ok (out, s') ->
+  exists sa tv s0 r s1,
+    eval0 call_rec target false None sa = Ok (tv, s0) /\
+    selects call_rec tv default cases s0 r s1 /\
+    match r with
+    | Some body => eval_case check_only visit_rec body s1 = Ok (out, s')
+    | None => out = [] /\ s' = s1
+    end.
+Proof. exact (switch_visits_exactly_the_selected_case check_only visit_rec call_rec target cases default out s s'). Qed.
+Print Assumptions C08_switch_visits_exactly_the_selected_case.
+
+Theorem C08_switch_case_hit_means_equal_value call_rec tv vs s s1 :
+  case_scan call_rec tv vs [] false s = Ok (true, s1) ->
+  exists e cv s2 s3 eqv, In e vs /\ eval0 call_rec e true (Some KInt) s2 = Ok (cv, s3) /\
+                         py_binop OpEq cv tv = Ok eqv /\ truthy eqv = true.
+Proof.
+  intros H. destruct (case_scan_hit call_rec tv vs [] false s true s1 H eq_refl) as [X|X]; [discriminate|exact X].
+Qed.
+Print Assumptions C08_switch_case_hit_means_equal_value.
